@@ -8,6 +8,7 @@ Init == pos = 1
 Next ==
   /\ pos <= Len(Batch)
   /\ PrintT(<<"PLAN", Batch[pos].id, ToJson(P(Batch[pos])!Plan(Batch[pos].inst))>>)
+  /\ PrintT(<<"FACTS", Batch[pos].id, ToJson(P(Batch[pos])!Facts(Batch[pos].inst))>>)
   /\ pos' = pos + 1
 Spec == Init /\ [][Next]_pos
 Accepted == TLCGet("stats").diameter - 1 = Len(Batch)
